@@ -38,7 +38,7 @@ for M in (1, 2, 3, 4, 6, 8, 12, 33, 62, 63, 64, 65, 66):
     tiers = ('quick', 'thorough') if quick else ('thorough',)
     fn = ['parse_number', 'get_decimal_point']
     if M <= 12:
-        QP('num.M%d' % M, 'harness/parse_num.c', props=PARSE_PROPS + (('C07',) if M == 3 else ()), defs=['-DM=%d' % M], unwind=M + 2, tiers=tiers, cost=M, functions=fn)
+        QP('num.M%d' % M, 'harness/parse_num.c', props=PARSE_PROPS + (('C07',) if M == 3 else ()) + (('C04',) if M in (6, 12) else ()), defs=['-DM=%d' % M], unwind=M + 2, tiers=tiers, cost=M, functions=fn, native_search=True)
     else:
         # long buffers: offset 0; safety/rejection/offset obligations on arbitrary bytes, C02 on constructed long integer literals
         QP('num.M%d' % M, 'harness/parse_num.c', props=('C01', 'C03', 'C10'), defs=['-DM=%d' % M, '-DOFF0'], unwind=min(M, 64) + 2, unwindset=['memcmp.0:%d' % (M + 2)], tiers=tiers, cost=M, functions=fn)
@@ -204,6 +204,8 @@ for K in (2, 3):
        unwindset=ML(2 * K + 3, 120) + ['generate_merge_patch__real.0:%d' % (2 * K + 2), 'cJSON_Delete:1', 'cJSON_Delete.0:%d' % (K + 2), 'sort_list:%d' % (1 if K == 2 else 2), 'strcmp.0:3', 'strlen.0:3', 'vf_memcpy.0:66', 'count_members.0:%d' % (2 * K + 3), 'member.0:%d' % (2 * K + 3), 'check_wf16.0:%d' % (2 * K + 3), 'check_wf16.1:%d' % (2 * K + 3)],
        cost=40, tiers=('quick', 'thorough') if K == 2 else ('thorough',), functions=MERFN, timeout=1800, mem_gb=24)
 
+# harness/mergegen_nested.c (real generate_merge_patch/compare_json/sort_object recursion over two levels, no stubs) is NOT registered:
+# no verdict within 30 min even for 2+1 nested members (MiniSat and CaDiCaL), see DESIGN.md section 8 (C18h) and section 10
 # ------------------------------------------------------------------ C14 hooks table
 QM(('C14',), 'hooks.table', 'harness/hooks.c', unwind=4, unwindset=ML(4, 30) + ['cJSON_Delete:1', 'cJSON_Delete.0:2', 'vf_memcpy.0:66', 'strlen.0:4'], cost=3, functions=['cJSON_InitHooks', 'cJSON_malloc', 'cJSON_free', 'cJSON_CreateString', 'cJSON_Delete'])
 QM(('C17', 'C14'), 'compose', 'harness/compose_unit.c', unwind=6, link=['cJSON.c'],
